@@ -129,15 +129,15 @@ def createEntry (v : Nat) (dir : Blk) (name : Bytes) : Prog (Option Nat × Blk) 
 def parentKeyOf (vc : VolCfg) (parent : Blk) : Nat :=
   if parent.secType = ST_ROOT then vc.rootBlock else parent.w F_headerKey
 
-/-- `adfCreateDir(vol, nParent, name)` -/
-def createDir (v nParent : Nat) (name : Bytes) : Prog RC := do
+/-- `adfCreateDir` up to and including the write of the new directory block; `true` when the call goes on (bitmap) -/
+def createDirLink (v nParent : Nat) (name : Bytes) : Prog (RC × Bool) := do
   let vc ← getVolCfg v
   let (rc, parent) ← readEntryBlock v nParent
-  if rc ≠ rcOK then return rc
-  if isDIRCACHE vc.dosType ∧ !(← hasFreeBlocks v 3) then return rcVolFull
+  if rc ≠ rcOK then return (rc, false)
+  if isDIRCACHE vc.dosType ∧ !(← hasFreeBlocks v 3) then return (rcVolFull, false)
   let (ns, parent) ← createEntry v parent name
   match ns with
-  | none => return rcError
+  | none => return (rcError, false)
   | some nSect =>
     let nm := name.take 30
     let dir := ((zeroBlk.setByte O_nameLen nm.length).setBytes O_name nm).setW F_headerKey nSect
@@ -146,14 +146,20 @@ def createDir (v nParent : Nat) (name : Bytes) : Prog RC := do
     let dir ← if isDIRCACHE vc.dosType then do
         let dir := dir.setW F_secType ST_DIR
         let rc ← addInCache v parent dir
-        if rc ≠ rcOK then return rc
+        if rc ≠ rcOK then return (rc, false)
         let (rc, dir) ← createEmptyCache v dir none
-        if rc ≠ rcOK then return rc
+        if rc ≠ rcOK then return (rc, false)
         pure dir
       else pure dir
     let (rc, _) ← writeDirBlock v nSect dir
-    if rc ≠ rcOK then return rc
-    updateBitmap v
+    if rc ≠ rcOK then return (rc, false)
+    return (rcOK, true)
+
+/-- `adfCreateDir(vol, nParent, name)` -/
+def createDir (v nParent : Nat) (name : Bytes) : Prog RC := do
+  let (rc, cont) ← createDirLink v nParent name
+  if !cont then return rc
+  updateBitmap v
 
 /-- the first half of `adfCreateFile`: link a new entry into the directory and write its header block; the third component
     is the parent block when the call goes on (directory cache, bitmap), `none` when it returns here -/
